@@ -139,10 +139,16 @@ func (w *worker) runFilter(c *selCase, raw []byte) {
 			pos[snap(mv)] = i
 		}
 		cfg := modelConfig(nil, false)
+		variant := variantDoc(c.Doc.ToGo(m))
 		sel := func(qt string) selection {
 			pr := safeParse("$.l[?("+qt+")]", &cfg)
 			if pr.Panic != nil || pr.Err != nil {
 				return selection{panic: fmt.Sprintf("parse of %q failed: %v %v", qt, pr.Err, pr.Panic)}
+			}
+			if mi%2 == 1 {
+				// a parsed function that has been used before, on ANOTHER document (other members, other `$.x`, `$.y`):
+				// every law must hold for it as it does for a fresh one
+				safeCall(pr.F, variant)
 			}
 			r := safeCall(pr.F, doc)
 			if r.Panic != nil {
@@ -286,4 +292,42 @@ func queryIsSpellingSafe(q *Query) bool {
 		return !(bothPaths(q) && (q.Op == "==" || q.Op == "!="))
 	}
 	return true
+}
+
+// variantDoc: the same shape with `x` and `y` exchanged (or invented when absent) and the members reversed
+func variantDoc(d interface{}) interface{} {
+	m, ok := d.(map[string]interface{})
+	if !ok {
+		return d
+	}
+	out := map[string]interface{}{}
+	x, hx := m["x"]
+	y, hy := m["y"]
+	switch {
+	case hx && hy:
+		out["x"], out["y"] = y, x
+	case hx:
+		out["y"] = x
+	case hy:
+		out["x"] = y
+	default:
+		out["x"], out["y"] = 7.0, "s"
+	}
+	switch l := m["l"].(type) {
+	case []interface{}:
+		r := make([]interface{}, len(l))
+		for i := range l {
+			r[len(l)-1-i] = l[i]
+		}
+		out["l"] = append(r, map[string]interface{}{"a": 1.0, "b": 2.0})
+	case map[string]interface{}:
+		r := map[string]interface{}{"k0": map[string]interface{}{"a": 1.0, "b": 2.0}}
+		for k, v := range l {
+			r[k+"v"] = v
+		}
+		out["l"] = r
+	default:
+		out["l"] = m["l"]
+	}
+	return out
 }
